@@ -708,6 +708,7 @@ func c03CompareAtReturns(c *Ctx, rule string, f *ssa.Function, env *feEnv, ops [
 // ---------------------------------------------------------------- special cases
 
 func c03Special(c *Ctx) {
+	c03ZForAffine(c)
 	for _, name := range []string{"sm2P256PointAdd", "sm2P256PointSub"} {
 		f := c.Fn("sm2", name)
 		if f == nil {
@@ -1205,4 +1206,85 @@ func c03NilResults(c *Ctx) {
 	if n == 0 {
 		c.Undecided(rule, "sm2", "ModInverse/ModSqrt calls in the curve code", "none found", token.NoPos)
 	}
+}
+
+// c03ZForAffine: the affine-to-Jacobian helper marks a point as infinity (z = 0) exactly when BOTH coordinates are zero.
+// Decided on values: assuming x.Sign() != 0 (resp. y.Sign() != 0) the returned z must have been set to 1 on every
+// path — i.e. a return is unreachable once the edges into the SetInt64(1) block are cut; and assuming both signs are
+// zero the SetInt64(1) call must be unreachable.
+func c03ZForAffine(c *Ctx) {
+	rule := "T-C03-special"
+	f := c.Fn("sm2", "zForAffine")
+	if f == nil {
+		c.Undecided(rule, "sm2.zForAffine", "infinity exactly for (0,0)", "helper not found (affine inputs are converted elsewhere)", token.NoPos)
+		return
+	}
+	ci := newCondIndex(f, paramNames(f, "x", "y"))
+	for _, cs := range ci.conds {
+		dbg("zForAffine cond: %s", cs)
+	}
+	// where the result becomes 1: blocks calling SetInt64(1), and returns of big.NewInt(1)
+	oneBlocks := map[*ssa.BasicBlock]bool{}
+	var pos1 token.Pos
+	isNewInt := func(v ssa.Value, k int64) bool {
+		call, ok := v.(*ssa.Call)
+		if !ok || calleeID(&call.Call) != "math/big.NewInt" {
+			return false
+		}
+		kk, isK := constInt(call.Call.Args[0])
+		return isK && kk == k
+	}
+	for _, cl := range allCalls(f) {
+		if call, ok := cl.(*ssa.Call); ok && calleeID(&call.Call) == "(*math/big.Int).SetInt64" {
+			if k, isK := constInt(call.Call.Args[1]); isK && k == 1 {
+				oneBlocks[call.Block()] = true
+				pos1 = call.Pos()
+			}
+		}
+	}
+	oneRet := map[*ssa.BasicBlock]bool{}
+	for _, b := range f.Blocks {
+		if ret, ok := b.Instrs[len(b.Instrs)-1].(*ssa.Return); ok && len(ret.Results) == 1 && isNewInt(ret.Results[0], 1) {
+			oneRet[b] = true
+			pos1 = ret.Pos()
+		}
+	}
+	if len(oneBlocks)+len(oneRet) == 0 {
+		c.Undecided(rule, fname(f), "infinity exactly for (0,0)", "neither SetInt64(1) nor a return of big.NewInt(1) found (z is produced in another way)", f.Pos())
+		return
+	}
+	cut := map[edge]bool{}
+	for ob := range oneBlocks {
+		for _, p := range ob.Preds {
+			cut[edge{p, ob}] = true
+		}
+	}
+	// under the assumptions: can a return be reached that does not deliver 1 / that does deliver 1
+	retReach := func(as []assumption, cutEdges map[edge]bool) bool {
+		r := false
+		ci.withAssumptions(as, func() {
+			seen := reach([]*ssa.BasicBlock{f.Blocks[0]}, cutEdges)
+			for b := range seen {
+				if _, isRet := b.Instrs[len(b.Instrs)-1].(*ssa.Return); isRet && !oneRet[b] {
+					r = true
+				}
+			}
+		})
+		return r
+	}
+	xs, ys := "ne(sign(x),0x0)", "ne(sign(y),0x0)"
+	okX := !oneBlocks[f.Blocks[0]] && !retReach([]assumption{{xs, true}}, cut)
+	okY := !oneBlocks[f.Blocks[0]] && !retReach([]assumption{{ys, true}}, cut)
+	c.Check(okX, rule, fname(f), "a point with x != 0 is finite (z = 1)", "", "with x != 0 the function can return a z that was not set to 1: with a wrong connective any point with one zero coordinate, such as (0, ±sqrt(b)), is treated as the point at infinity", pos1)
+	c.Check(okY, rule, fname(f), "a point with y != 0 is finite (z = 1)", "", "with y != 0 the function can return a z that was not set to 1: the curve points (0, ±sqrt(b)) are treated as the point at infinity", pos1)
+	reach1 := false
+	ci.withAssumptions([]assumption{{xs, false}, {ys, false}}, func() {
+		seen := reach([]*ssa.BasicBlock{f.Blocks[0]}, nil)
+		for b := range seen {
+			if oneBlocks[b] || oneRet[b] {
+				reach1 = true
+			}
+		}
+	})
+	c.Check(!reach1, rule, fname(f), "(0,0) is the point at infinity (z = 0)", "", "with x = y = 0 the function still delivers z = 1", pos1)
 }
